@@ -379,6 +379,17 @@ def Cursor.posString (c : Cursor) : String :=
   | some top => s!"{top.pos.bytes} {top.pos.extent.row} {top.pos.extent.column}"
   | none => "?"
 
+/-- Structural index reached after passing the raw children `a` starting from `si`
+(`structural_child_index` counts the non-extra children). -/
+def siAfter : List Tree → Nat → Nat
+  | [], si => si
+  | c :: rest, si => siAfter rest (if c.data.extra then si else si + 1)
+
+/-- Runtime form of `IdxOK` (structural-index invariant of a cursor stack). -/
+def stackIdxOK : List Entry → Bool
+  | e :: p :: rest => (e.si == siAfter (p.t.kids.take e.childIndex) 0) && stackIdxOK (p :: rest)
+  | _ => true
+
 /-- Runtime form of the linkage part of `StackOK` (hypothesis of the cursor-walk theorems): every
 entry is the child of the entry below it at its recorded raw index (compared by node data). -/
 def stackLinked : List Entry → Bool
